@@ -195,73 +195,46 @@ def rule_3(ctx):
 XLFN_OK_IDIOMS = ('replace', 'removeprefix')
 
 
+class _Namespace(PyModel):
+    def __init__(self):
+        self.keys = []
+
+    def __getitem__(self, key):
+        from xlsa.guards import ExcRaised
+        self.keys.append(key)
+        raise ExcRaised(Ref('builtin:StopIteration'))
+
+    def get(self, key, default=None):
+        return self.__getitem__(key)
+
+
 def rule_4(ctx):
+    """Function-name canonicalisation decided on witness spellings: the key looked up in the namespace."""
     am = ctx.mod('ast_nodes')
     ev = am.func('FunctionNode.eval')
-    subs = [n for n in walk_local(ev) if isinstance(n, ast.Subscript) and isinstance(n.value, ast.Attribute)
-            and n.value.attr == 'namespace']
-    if len(subs) != 1:
-        raise AnchorMissing('FunctionNode.eval: namespace lookup')
-    key = subs[0].slice
-    if not isinstance(key, ast.Name):
-        raise Unmodelled('namespace key is not a local name')
-    # assignments to the key name in order
-    chain = [a for a in walk_local(ev) if isinstance(a, ast.Assign) and any(
-        isinstance(t, ast.Name) and t.id == key.id for t in a.targets)]
-    upper = any(isinstance(c, ast.Call) and isinstance(c.func, ast.Attribute) and c.func.attr == 'upper'
-                for a in chain for c in ast.walk(a.value))
-    from_tvalue = any(isinstance(x, ast.Attribute) and x.attr == 'tvalue' for a in chain[:1] for x in ast.walk(a.value))
-    ctx.expect(upper and from_tvalue, ev, 'function name upper-cased before lookup',
-               'the function name is not upper-cased on its way from the token to the namespace lookup: names are matched case-sensitively')
-    prefix_ok = False
-    bad_idiom = None
-    for a in chain:
-        for c in ast.walk(a.value):
-            if isinstance(c, ast.Call) and isinstance(c.func, ast.Attribute) and c.args \
-                    and isinstance(c.args[0], ast.Constant) and isinstance(c.args[0].value, str) \
-                    and c.args[0].value.upper() == '_XLFN.':
-                if c.func.attr == 'replace' and len(c.args) == 2 and isinstance(c.args[1], ast.Constant) and c.args[1].value == '':
-                    prefix_ok = True
-                elif c.func.attr == 'removeprefix':
-                    prefix_ok = True
-                elif c.func.attr in ('lstrip', 'strip', 'rstrip'):
-                    bad_idiom = f'{c.func.attr}({c.args[0].value!r}) removes a *set of characters*, not the prefix'
-                elif c.func.attr in ('startswith',):
-                    pass
-        # slicing idiom: name[len('_XLFN.'):] / name[6:] under a startswith test
-        for s_ in ast.walk(a.value):
-            if isinstance(s_, ast.Subscript) and isinstance(s_.slice, ast.Slice) and s_.slice.lower is not None:
-                try:
-                    lo = ctx.fold(s_.slice.lower, am)
-                except Unfoldable:
-                    lo = None
-                conds = flow.path_conditions(a)
-                sw = any(c.polarity and any(isinstance(x, ast.Call) and isinstance(x.func, ast.Attribute) and x.func.attr == 'startswith'
-                                            and x.args and isinstance(x.args[0], ast.Constant) and str(x.args[0].value).upper() == '_XLFN.'
-                                            for x in ast.walk(c.test)) for c in conds)
-                if lo == len('_XLFN.') and sw:
-                    prefix_ok = True
-    # case: the removal must act on the upper-cased name when the literal is upper case
-    ctx.expect(prefix_ok and not bad_idiom, ev, '"_XLFN." prefix removed exactly',
-               bad_idiom or 'the "_xlfn." prefix is not removed from the function name before the lookup')
-    if prefix_ok:
-        # order: upper() before a removal that uses the upper-case literal
-        order_ok = True
-        seen_upper = False
-        for a in chain:
-            for c in ast.walk(a.value):
-                if isinstance(c, ast.Call) and isinstance(c.func, ast.Attribute):
-                    if c.func.attr == 'upper':
-                        seen_upper = True
-            for c in ast.walk(a.value):
-                if isinstance(c, ast.Call) and isinstance(c.func, ast.Attribute) and c.func.attr in XLFN_OK_IDIOMS \
-                        and c.args and isinstance(c.args[0], ast.Constant) and c.args[0].value == '_XLFN.' and not seen_upper:
-                    order_ok = False
-        ctx.expect(order_ok, ev, 'prefix removed after upper-casing', 'the upper-case prefix literal is removed before the name is upper-cased')
+    p = func_params(ev)
+    witnesses = {'sum': 'SUM', 'Sum': 'SUM', 'SUM': 'SUM', '_xlfn.CONCAT': 'CONCAT', '_XLFN.days': 'DAYS', '_xlfn.len': 'LEN',
+                 '_xlfn.NPV': 'NPV', '_xlfn.Floor': 'FLOOR', '_xlfn.xnpv': 'XNPV', '_xlfn.FACT': 'FACT', 'dec2bin': 'DEC2BIN'}
+    for text, want in witnesses.items():
+        ns = _Namespace()
+        it = Interp(ctx.a, am, {p[0]: Rec(tvalue=text, args=[], token=Rec(tvalue=text)), p[1]: Rec(namespace=ns, ref='Sheet1!A1')},
+                    inline_pkg=True, scope_fn=ev, self_class='pkg:ast_nodes:FunctionNode')
+        try:
+            it.run(ev.body)
+        except Unmodelled as exc:
+            if not ns.keys:
+                raise Unmodelled(f'FunctionNode.eval: {exc}')
+        got = ns.keys[0] if ns.keys else None
+        if got is None:
+            ctx.unmodelled(ev, 'FunctionNode.eval never looks the function up in context.namespace')
+            continue
+        ctx.expect(got == want, ev, f'lookup key for {text!r}',
+                   f'a function written as {text!r} is looked up as {got!r}, expected {want!r}: names match case-insensitively and '
+                   'exactly the "_xlfn." prefix is ignored')
     for f in ctx.a.registry:
         ctx.expect(f.name == f.name.upper(), f.node, f'registered name {f.name} is upper case',
                    f'{f.name} is registered under a name that the upper-casing lookup can never produce')
-    ctx.floor(120, 'lookup chain + registered names')
+    ctx.floor(120, 'lookup witnesses + registered names')
 
 
 def rule_5(ctx):
